@@ -13,8 +13,11 @@ import (
 	"runtime/debug"
 	"runtime/pprof"
 	"sort"
-	"time"
+	"strconv"
+	"strings"
 	"sync/atomic"
+	"syscall"
+	"time"
 
 	gortsplib "github.com/bluenviron/gortsplib/v5"
 	"github.com/bluenviron/gortsplib/v5/pkg/base"
@@ -37,8 +40,12 @@ func binom(n, k int) int64 {
 
 func main() {
 	// millions of short-lived allocations on a tiny live heap: let the heap grow before collecting
-	debug.SetGCPercent(2000)
-	debug.SetMemoryLimit(3 << 30)
+	gcp := 100
+	if v, err := strconv.Atoi(os.Getenv("C04_GOGC")); err == nil {
+		gcp = v
+	}
+	debug.SetGCPercent(gcp)
+	debug.SetMemoryLimit(4 << 30)
 	run := evid.New("C04", "exploration")
 	if pf := os.Getenv("C04_PROF"); pf != "" {
 		f, _ := os.Create(pf)
@@ -53,11 +60,13 @@ func main() {
 	thorough := run.Thorough()
 
 	cfg := tierCfg{fullLen: 300, kFull: 2, fullLen2: 300, radius: 8, maxCand: 300, singlesAll: 8192,
-		splitAllLen: 300, wsSplitAll: 0, splitRadius: 5, oneByteLimit: 1200, wsSinglesAll: 400, wsPairRadius: 6, wsSplitRadius: 4}
+		splitAllLen: 300, wsSplitAll: 0, splitRadius: 4, oneByteLimit: 1200, wsSinglesAll: 400, wsPairRadius: 8, wsSplitRadius: 4,
+		bigLen: 20000, httpFull2: 200, httpFull3: 0}
 	seqMax := 2
 	if thorough {
-		cfg = tierCfg{fullLen: 400, kFull: 3, fullLen2: 1200, radius: 12, maxCand: 600, singlesAll: 8192,
-			splitAllLen: 600, wsSplitAll: 120, splitRadius: 8, oneByteLimit: 4000, wsSinglesAll: 3000, wsPairRadius: 10, wsSplitRadius: 6}
+		cfg = tierCfg{fullLen: 140, kFull: 3, fullLen2: 1200, radius: 12, maxCand: 500, singlesAll: 8192,
+			splitAllLen: 400, wsSplitAll: 150, splitRadius: 6, oneByteLimit: 4000, wsSinglesAll: 3000, wsPairRadius: 10, wsSplitRadius: 5,
+			bigLen: 20000, httpFull2: 400, httpFull3: 140}
 		seqMax = 3
 	}
 
@@ -71,17 +80,23 @@ func main() {
 	L := base.VerifC04Limits()
 
 	run.Rule(fmt.Sprintf("case = (element sequence, carrier, grouping of the byte stream into writes, partition of the carrier byte stream into reads). "+
-		"Alphabet: %d elements (requests with/without body, IPv6+query URL, '@' in path/query, OPTIONS *, multi-valued and 255 headers, user-info; responses default/custom/empty reason, body; "+
-		"frames len 0,1,2,65535 on channels 0,1,36,255 with payloads that look like a frame/response/request). Sequences: every sequence of 1..2 of the %d sequence-alphabet elements (thorough: plus every sequence of 3 of the reduced alphabet). "+
-		"Reads: one read, all 1-byte reads, and every partition with <= %d cut points for carrier streams <= %d bytes (every <=2-cut partition up to %d bytes); longer streams: every single cut (streams <= %d bytes) and every pair of cuts within %d bytes of a write boundary, header line end or CRLF "+
-		"(only write boundaries when that set exceeds %d positions). Writes: one per element; for the tunnels additionally all elements in one write and every split of the stream into 2 writes (HTTP: every position for raw streams <= %d bytes, else near boundaries/CRLFs; WebSocket: near boundaries/CRLFs) with all <=2 cuts within %d bytes of the block boundary. "+
-		"Limits: each limit at L-1, L, L+1, L+2, 2L+7, 50L, terminated and endless, 4 chunk sizes, followed by 4 MiB. Totality: every truncation and every 1-byte mutation (thorough: 2-byte for streams <= 200 bytes) from {00,'$',CR,LF,SP,':',FF} of every single-element stream on 3 carriers. "+
-		"non-trivial = not (plain carrier, one read); distinct = (sequence, carrier, writes, cut set).",
-		len(al), countSeq(al), cfg.kFull, cfg.fullLen, cfg.fullLen2, cfg.singlesAll, cfg.radius, cfg.maxCand, cfg.splitAllLen, cfg.splitRadius))
+		"Alphabet: %d elements (requests with/without body, IPv6+query URL, '@' in path/query, OPTIONS *, multi-valued and 255 headers, user-info, every standard method; responses default/custom/empty reason, body; "+
+		"frames len 0,1,2,65535 on channels 0,1,36,255 with payloads that look like a frame/response/request) plus 6 elements exactly at the limits. Sequences: every single element, every sequence of 2 of the %d sequence-alphabet elements%s. "+
+		"Carriers: direct, direct through the server's protocol sniffing, HTTP tunnel (base64), WebSocket client->server and server->client. "+
+		"Reads: one read; all 1-byte reads; direct: every partition with <= %d cut points for streams <= %d bytes and with <= 2 for streams <= %d bytes; base64 text: every partition with <= 3 cuts up to %d chars, <= 2 cuts up to %d chars; "+
+		"longer streams: every single cut (streams <= %d bytes) and every pair of cuts within %d bytes of a write boundary, header line end or CRLF (only write boundaries when that set exceeds %d positions; streams > %d bytes: pairs within 4 bytes of write boundaries); "+
+		"server sniffing: every single cut (streams <= 1000 bytes) and all pairs among the first 8 bytes and the element boundaries; WebSocket: every single cut (streams <= %d bytes) and all pairs within %d bytes of a message frame boundary; thorough adds all triples near write boundaries. "+
+		"Writes: one per element; for the tunnels additionally all elements in one write and every split of the stream into 2 writes (HTTP: every position for raw streams <= %d bytes, WebSocket <= %d bytes, else next to element boundaries/CRLFs) with all <=2 cuts within %d (WebSocket %d) bytes of the block boundary. "+
+		"Limits: each limit at L-1, L, L+1, L+2, 2L+7, 50L, terminated and endless, 4 chunk sizes, followed by 4 MiB. Totality: every truncation and every 1-byte mutation (thorough: every 2-byte mutation for streams <= 200 bytes) from {00,'$',CR,LF,SP,':',FF} of every single-element stream on 3 carriers. "+
+		"base64 reader memory: 4 hostile feeds x 8 chunk sizes x 5 read sizes. non-trivial = not (plain carrier, one read); distinct = (sequence, carrier, writes, cut set).",
+		len(al), countSeq(al, thorough), map[bool]string{false: "", true: ", every sequence of 3 of the 6-element reduced alphabet"}[thorough],
+		cfg.kFull, cfg.fullLen, cfg.fullLen2, cfg.httpFull3, cfg.httpFull2, cfg.singlesAll, cfg.radius, cfg.maxCand, cfg.bigLen,
+		cfg.wsSinglesAll, cfg.wsPairRadius, cfg.splitAllLen, cfg.wsSplitAll, cfg.splitRadius, cfg.wsSplitRadius))
 	run.Assume("elements are serialised by conn.Conn.WriteRequest/WriteResponse/WriteInterleavedFrame (one Write per element); URLs are built with net/url.Parse and converted to base.URL, the expected URL is net/url's String() without user-info")
 	run.Assume("expected read-back: same method, URL.String(), header keys and ordered values (+ Content-Length when a body is present), body, status code, reason (default reason when empty), channel, payload; after the last element Read must return an error")
 	run.Assume("carrier direct: chunk reader -> bufio.Reader -> conn.Conn. carrier direct-server: chunk reader -> real serverConnReader.handleTunneling (4-byte sniff through rewindablereader) -> bufio -> conn.Conn")
 	run.Assume("carrier http-base64: real newClientTunnelHTTP over two in-memory net.Conns (GET answered with the server's canned 200), every write through the real clientTunnelHTTP.Write; the POST request + base64 text is delivered by the chunk reader; the server side repeats the first lines of handleTunneling (rewindable sniff, http.ReadRequest, isHTTPTunnel) in the accessor and then uses the real newServerHTTPTunnel/base64streamreader with the same bufio.Reader, as Server.run does. A running Server (channel pairing by X-Sessioncookie) is NOT in the path")
+	run.Assume("HTTP tunnel deliveries with >= 2 cuts that do not cut at the POST|data boundary do not re-parse the POST request: the real newServerHTTPTunnel is given a fresh bufio.Reader at the first base64 byte (deliveries with 0 or 1 cut, 1-byte reads and cuts at the boundary go through the POST request). WebSocket deliveries with >= 1 cut reuse the upgraded connection of the previous delivery (no read past the end; instead all carrier bytes must be consumed and nothing may stay buffered); every failure is re-judged on a freshly upgraded connection")
 	run.Assume("carrier websocket: real newClientTunnelWebSocket (gorilla Dialer) and real serverConnReader.handleTunneling (wsResponseWriter, gorilla Upgrader, wsReader/wsWriter) over in-memory net.Conns with a synchronous handshake; messages = writes; the partition applies to the post-handshake byte stream in the direction under test (client->server masked, server->client unmasked)")
 	run.Assume("limits: a token strictly below the constant must be accepted, strictly above must be refused; the constant itself is only observed for the length limits because readBytesLimited counts the delimiter (header count and body size, which the statement quotes as 255 / 128 KiB, must be accepted at the constant). Consumption bound: bytes in front of the token + limit + 4096")
 	run.Assume("not judged, only reported: requests with a non-standard method through the generic Read; unlimited run of spaces in front of a header value; elements returned from truncated streams")
@@ -89,6 +104,39 @@ func main() {
 	if run.Replay != "" {
 		replay(run, rt)
 		return
+	}
+	if b := os.Getenv("C04_BENCH"); b != "" {
+		parts := strings.Split(b, " ")
+		var seq []*elem
+		for _, n := range strings.Split(parts[1], "+") {
+			seq = append(seq, alm[n])
+		}
+		ws, _ := serialise(seq)
+		w, err := prepare(parts[0], ws, nil)
+		if err != nil {
+			run.Fatal("%v", err)
+		}
+		exp := expectAll(seq)
+		for _, mode := range []string{"whole", "cut2", "cut2fast", "onebyte"} {
+			t0 := time.Now()
+			k := 2000
+			var f *failure
+			for i := 0; i < k; i++ {
+				switch mode {
+				case "whole":
+					f = execCase(w, exp, nil, false, false, nil)
+				case "cut2":
+					f = execCase(w, exp, []int{5, 17}, false, false, nil)
+				case "cut2fast":
+					f = execCase(w, exp, []int{5, 17}, false, true, nil)
+				default:
+					f = execCase(w, exp, nil, true, false, nil)
+				}
+			}
+			fmt.Printf("BENCH %s %s: %.1f us/case fail=%v\n", b, mode, float64(time.Since(t0).Microseconds())/float64(k), f)
+		}
+		pprof.StopCPUProfile()
+		os.Exit(0)
 	}
 
 	// ---- baseline: every element alone, plain carrier, one read; failing elements are reported once and excluded
@@ -121,7 +169,7 @@ func main() {
 		if broken[e.Name] {
 			continue
 		}
-		if e.Seq {
+		if e.Seq && (thorough || !e.ThoroughOnly) {
 			seqAl = append(seqAl, e)
 		}
 		if e.Reduced {
@@ -181,10 +229,16 @@ func main() {
 			if !isWS && car != carDirectServer {
 				var est int64
 				switch {
-				case m <= cfg.fullLen:
-					est = binom(m, cfg.kFull)
-				case m <= cfg.fullLen2:
+				case car == carHTTP && m <= cfg.httpFull3:
+					est = binom(m, 3)
+				case car == carHTTP && m <= cfg.httpFull2:
 					est = binom(m, 2)
+				case car != carHTTP && m <= cfg.fullLen:
+					est = binom(m, cfg.kFull)
+				case car != carHTTP && m <= cfg.fullLen2:
+					est = binom(m, 2)
+				case m > cfg.bigLen:
+					est = 1
 				default:
 					est = int64(cfg.maxCand) * int64(cfg.maxCand) / 2 * int64(1+m/3000)
 				}
@@ -204,6 +258,13 @@ func main() {
 			}
 			var pos []int
 			switch {
+			case n > cfg.bigLen:
+				var b []int
+				for _, e := range ends {
+					b = around(b, e, 2)
+				}
+				b = around(b, 0, 3)
+				pos = uniqSorted(b, 1, n-1)
 			case car == carHTTP && n <= cfg.splitAllLen:
 				pos = allPositions(1, n)
 			case car != carHTTP && n <= cfg.wsSplitAll:
@@ -231,12 +292,26 @@ func main() {
 			}
 		}
 	}
+	if os.Getenv("C04_ONLY") != "" && os.Getenv("C04_PROF") != "" {
+		defer pprof.StopCPUProfile()
+	}
+	if only := os.Getenv("C04_ONLY"); only != "" {
+		var jj []rtJob
+		for _, j := range jobs {
+			if strings.Contains(j.carrier+" "+joinNames(j.seq), only) {
+				jj = append(jj, j)
+			}
+		}
+		jobs = jj
+	}
 	run.Set("roundtrip_jobs", len(jobs))
 	jobTimes := make([]float64, len(jobs))
 	evid.Parallel(len(jobs), 16, func(i int) {
 		t0 := run.Elapsed()
+		e0 := run.Evals()
 		rt.doJob(jobs[i])
 		jobTimes[i] = (run.Elapsed() - t0).Seconds()
+		_ = e0
 	})
 	if os.Getenv("C04_DEBUG") != "" {
 		idx := make([]int, len(jobs))
@@ -264,6 +339,10 @@ func main() {
 		run.Violation("base64/memory/buffer-exceeds-read-size", caseT{Phase: "b64mem", Msg: fmt.Sprintf("during round trips the base64 reader buffered %d bytes", rt.st.maxBuf)})
 	}
 	fmt.Printf("roundtrip done at %.1fs: %v\n", run.Elapsed().Seconds(), per)
+	if os.Getenv("C04_ONLY") != "" {
+		pprof.StopCPUProfile()
+		run.Finish()
+	}
 
 	typedPhase(run, al, broken)
 	limitsPhase(run)
@@ -271,16 +350,22 @@ func main() {
 	totalityPhase(run, append(append([]*elem{}, al...), lim[:4]...), thorough)
 	fmt.Printf("totality done at %.1fs\n", run.Elapsed().Seconds())
 	b64memPhase(run)
+	var ru syscall.Rusage
+	if syscall.Getrusage(syscall.RUSAGE_SELF, &ru) == nil {
+		cpu := float64(ru.Utime.Sec+ru.Stime.Sec) + float64(ru.Utime.Usec+ru.Stime.Usec)/1e6
+		run.Set("cpu_seconds", float64(int(cpu*10))/10)
+		fmt.Printf("cpu %.1fs (user+sys), wall %.1fs\n", cpu, run.Elapsed().Seconds())
+	}
 	run.Set("limits_in_tree", L)
 	run.Sample(map[string]any{"phase": "limits", "example": "OP" + "X...(63 chars) accepted, 65 chars refused after <= 4096 bytes consumed of a 4 MiB stream"})
 	run.Sample(map[string]any{"phase": "totality", "example": "every prefix and every 1-byte mutation of 'ANNOUNCE rtsp://example.com:8554/s RTSP/1.0 ...' -> elements or error"})
 	run.Finish()
 }
 
-func countSeq(al []*elem) int {
+func countSeq(al []*elem, thorough bool) int {
 	n := 0
 	for _, e := range al {
-		if e.Seq {
+		if e.Seq && (thorough || !e.ThoroughOnly) {
 			n++
 		}
 	}
